@@ -6,7 +6,7 @@ set -u
 ID="$1"; M="$2"; FEAT="$3"; shift 3
 OUT=/tmp/seedwork/out${R:-}-$ID/$M
 DEST=/verif/seeded/$ID-${R:+r$R}$M
-v=$(R="${R:-}" TC="${TC:-}" /verif/tools/verify_seed.sh "$ID" "$M" $FEAT); vrc=$?
+v=$(TESTARGS="${TESTARGS:-}" R="${R:-}" TC="${TC:-}" /verif/tools/verify_seed.sh "$ID" "$M" $FEAT); vrc=$?
 echo "$v"
 if [ $vrc -ne 0 ]; then echo "NOT KEPT: verification failed"; exit 1; fi
 res=$(/verif/tools/try_seed.sh "$OUT/patch.diff" "$@")
